@@ -870,3 +870,353 @@ Proof.
   assert (Hv : In v (keep_uids b us)) by (rewrite Hk; left; reflexivity).
   apply keep_uids_in in Hv as [Hv Hn]. apply Hn. rewrite Hu. left. symmetry. eapply Hone; eauto.
 Qed.
+
+(** * A run that stops after the output was written *)
+
+Definition wal_rows (s : shard) : list event := concat (map snd (walfiles s)).
+
+(** unique event keys, up to identical copies, among what is on disk *)
+Definition KeysOkDisk (s : shard) : Prop :=
+  forall a b, In a (wal_rows s ++ all_rows (dirs s)) -> In b (wal_rows s ++ all_rows (dirs s)) ->
+              ek a = ek b -> a = b.
+
+Lemma restart_seg_rows t : seg_rows (restart t) = all_rows (dirs t).
+Proof.
+  unfold seg_rows, scanned_dirs, all_rows. cbn [restart live inflight dirs].
+  rewrite filter_all_in; [reflexivity|]. intros d Hd. apply orb_true_iff. left.
+  apply memb_true, sort_n_in, in_map, Hd.
+Qed.
+
+Lemma restart_mem_rows t : mem_rows (restart t) = wal_rows t ++ [].
+Proof. reflexivity. Qed.
+
+Lemma cp_write_dirs_fresh s b :
+  (forall d, In d (dirs s) -> sid d <> b_out b) ->
+  dirs (cp_write s b) = dirs s ++ [mkSeg (b_out b) (batch_rows (dirs s) b)].
+Proof.
+  intros Hf. unfold cp_write. cbn [dirs]. rewrite (rows_of_no_dir _ _ Hf). cbn [filter app].
+  rewrite filter_all_in; [reflexivity|]. intros d Hd. apply negb_true_iff, N.eqb_neq, Hf, Hd.
+Qed.
+
+Lemma all_rows_app a b : all_rows (a ++ b) = all_rows a ++ all_rows b.
+Proof. unfold all_rows. rewrite map_app, concat_app. reflexivity. Qed.
+
+Lemma rows_of_in_all ds i e : In e (rows_of ds i) -> In e (all_rows ds).
+Proof. apply in_concat_filter. Qed.
+
+Theorem failed_run_harmless : forall s b,
+  (forall d, In d (dirs s) -> sid d <> b_out b) -> KeysOkDisk s ->
+  let s1 := crun s [CWrite b; CBase LCrash; CBase LRestart] in
+  let s0 := crun s [CBase LCrash; CBase LRestart] in
+  index s1 = index s0 /\
+  (forall u, Permutation (select s1 u) (select s0 u)) /\
+  (forall u, count s1 u = count s0 u + len (of_uid u (batch_rows (dirs s) b))).
+Proof.
+  intros s b Hf Hk s1 s0. split; [reflexivity|].
+  assert (Hm1 : mem_rows s1 = wal_rows s ++ []) by reflexivity.
+  assert (Hm0 : mem_rows s0 = wal_rows s ++ []) by reflexivity.
+  assert (Hs1 : seg_rows s1 = all_rows (dirs s) ++ batch_rows (dirs s) b).
+  { change s1 with (restart (crash (cp_write s b))). rewrite restart_seg_rows.
+    change (dirs (crash (cp_write s b))) with (dirs (cp_write s b)).
+    rewrite (cp_write_dirs_fresh _ _ Hf), all_rows_app. unfold all_rows at 2. cbn [map concat srows].
+    rewrite app_nil_r. reflexivity. }
+  assert (Hs0 : seg_rows s0 = all_rows (dirs s)).
+  { change s0 with (restart (crash s)). rewrite restart_seg_rows. reflexivity. }
+  split.
+  - intros u. symmetry. apply select_perm_of_rows.
+    + intros e. rewrite Hm1, Hm0, Hs1, Hs0, !in_app_iff. split; [|tauto].
+      intros [H|[H|H]]; auto. right. apply batch_rows_in in H as (_ & i & _ & H).
+      eapply rows_of_in_all, H.
+    + rewrite Hm0, Hs0, app_nil_r. exact Hk.
+  - intros u. unfold count. rewrite Hm1, Hm0, Hs1, Hs0, of_uid_app, !len_app. lia.
+Qed.
+
+(** without the restart the leftover directory is not read at all *)
+Theorem failed_run_unread : forall s b,
+  (forall d, In d (dirs s) -> sid d <> b_out b) ->
+  ~ In (b_out b) (live s) -> ~ In (b_out b) (inflight s) ->
+  let s1 := cstep s (CWrite b) in
+  index s1 = index s /\ live s1 = live s /\
+  forall u, select s1 u = select s u /\ count s1 u = count s u.
+Proof.
+  intros s b Hf Hl Hi s1. split; [reflexivity|]. split; [reflexivity|].
+  assert (E : seg_rows s1 = seg_rows s).
+  { unfold seg_rows, scanned_dirs. change (live s1) with (live s). change (inflight s1) with (inflight s).
+    change (dirs s1) with (dirs (cp_write s b)). rewrite (cp_write_dirs_fresh _ _ Hf), filter_app.
+    cbn [filter sid]. apply memb_false in Hl, Hi. rewrite Hl, Hi. cbn [orb]. rewrite app_nil_r. reflexivity. }
+  intros u. unfold select, scan, count. rewrite E. split; reflexivity.
+Qed.
+
+(** * Flush-only histories reach well-formed states *)
+
+Record FIC (lv : list N) (ds : list segdir) (ix : list (N * list N)) (js : list job) (al : N) : Prop := {
+  f_nd : NoDup (index_labels ix);
+  f_ilt : forall i, In i (index_labels ix) -> i < al;
+  f_unw : forall j, In j js -> written (jstage j) = false -> ~ In (jseg j) (index_labels ix);
+  f_wr : forall j, In j js -> written (jstage j) = true -> In (jseg j) (index_labels ix);
+  f_dir : forall i, In i (index_labels ix) -> has_dir ds i;
+  f_sound : forall i us u, In (i, us) ix -> In u us -> exists e, In e (rows_of ds i) /\ euid e = u;
+  f_exact : forall i us e, In (i, us) ix -> In e (rows_of ds i) -> In (euid e) us;
+  f_live : forall i, In i lv -> In i (index_labels ix);
+  f_sub : forall j, In j js -> written (jstage j) = false ->
+          forall e, In e (rows_of ds (jseg j)) -> In e (jevs j) }.
+
+Definition FI (s : shard) : Prop := FIC (live s) (dirs s) (index s) (jobs s) (alloc0 s).
+
+Ltac dF F := destruct F as [Fnd Filt Funw Fwr Fdir Fsound Fexact Flive Fsub].
+
+Lemma fi_init c : FI (init c).
+Proof.
+  unfold FI, init. cbn [live dirs index jobs alloc0].
+  split; cbn [index_labels map In]; try (intros; contradiction). constructor.
+Qed.
+
+Lemma fic_rotate lv ds ix js al m :
+  FIC lv ds ix js al -> (forall d, In d ds -> sid d < al) ->
+  FIC lv ds ix (js ++ [mkJob al m StQueued]) (N.succ al).
+Proof.
+  intros F Hd. dF F. split; auto.
+  - intros i Hi. apply Filt in Hi. lia.
+  - intros j Hj Hw. apply in_app_iff in Hj as [Hj|[<-|[]]]; [auto|]. cbn [jseg]. intros H. apply Filt in H. lia.
+  - intros j Hj Hw. apply in_app_iff in Hj as [Hj|[<-|[]]]; [auto | discriminate].
+  - intros j Hj Hw e He. apply in_app_iff in Hj as [Hj|[<-|[]]]; [eauto|]. cbn [jseg] in He.
+    exfalso. eapply rows_of_fresh; eauto.
+Qed.
+
+Lemma fic_adv lv ds ix j rest al st' :
+  FIC lv ds ix (j :: rest) al -> written st' = written (jstage j) ->
+  FIC lv ds ix (mkJob (jseg j) (jevs j) st' :: rest) al.
+Proof.
+  intros F Hw. dF F. split; auto.
+  - intros j0 [<-|Hj0] H; cbn [jseg jstage] in *; [apply (Funw j); [left; reflexivity | congruence] | apply Funw; [right|]; assumption].
+  - intros j0 [<-|Hj0] H; cbn [jseg jstage] in *; [apply (Fwr j); [left; reflexivity | congruence] | apply Fwr; [right|]; assumption].
+  - intros j0 [<-|Hj0] H; cbn [jseg jstage jevs] in *; [apply (Fsub j); [left; reflexivity | congruence] | apply Fsub; [right|]; assumption].
+Qed.
+
+Lemma has_dir_add ds seg r i : has_dir ds i -> has_dir (dir_add_rows ds seg r) i.
+Proof.
+  intros (d & Hd & E). induction ds as [|x ds IH]; [destruct Hd|]. cbn [dir_add_rows].
+  destruct (N.eqb_spec (sid x) seg) as [Hx|Hx].
+  - destruct Hd as [->|Hd]; [exists (mkSeg seg (srows d ++ r)); split; [left; reflexivity | cbn [sid]; congruence]|].
+    exists d. split; [right; exact Hd | exact E].
+  - destruct Hd as [->|Hd]; [exists d; split; [left; reflexivity | exact E]|].
+    destruct (IH Hd) as (d' & Hd' & E'). exists d'. split; [right; exact Hd' | exact E'].
+Qed.
+
+Lemma fic_add_rows lv ds ix j rest al r :
+  FIC lv ds ix (j :: rest) al -> NoDup (map jseg (j :: rest)) -> written (jstage j) = false ->
+  (forall e, In e r -> In e (jevs j)) ->
+  FIC lv (dir_add_rows ds (jseg j) r) ix (j :: rest) al.
+Proof.
+  intros F Hn Hw Hr. dF F.
+  assert (Hseg : ~ In (jseg j) (index_labels ix)) by (apply Funw; [left; reflexivity | exact Hw]).
+  split; auto.
+  - intros i Hi. apply has_dir_add, Fdir, Hi.
+  - intros i us u Hix Hu. destruct (Fsound i us u Hix Hu) as (e & He & E). exists e. split; [|exact E].
+    apply rows_of_add. left. exact He.
+  - intros i us e Hix He. apply rows_of_add in He as [He|[E _]]; [eauto|].
+    exfalso. apply Hseg. subst i. apply in_map_iff. exists (jseg j, us). auto.
+  - intros j0 Hj0 Hw0 e He. apply rows_of_add in He as [He|[E He]]; [eauto|].
+    destruct Hj0 as [<-|Hj0]; [auto|]. exfalso. cbn [map] in Hn. apply NoDup_cons_iff in Hn as [Hn _].
+    apply Hn. rewrite <- E. apply in_map, Hj0.
+Qed.
+
+Lemma uids_of_inv evs u : In u (uids_of evs) -> exists e, In e evs /\ euid e = u.
+Proof.
+  unfold uids_of. rewrite sort_n_in, dedup_n_in, in_map_iff. intros (e & E & He). eauto.
+Qed.
+
+Lemma fic_index (s : shard) lv ix j rest al :
+  FIC lv (dirs s) ix (j :: rest) al -> NoDup (map jseg (j :: rest)) -> jseg j < al ->
+  written (jstage j) = false -> jevs j <> [] ->
+  forallb (dir_has_uid s (jseg j)) (uids_of (jevs j)) = true ->
+  FIC lv (dirs s) (ix ++ [(jseg j, uids_of (jevs j))]) (mkJob (jseg j) (jevs j) StIndexed :: rest) al.
+Proof.
+  intros F Hn Hlt Hw Hne Hall. dF F. rewrite forallb_forall in Hall.
+  assert (Hseg : ~ In (jseg j) (index_labels ix)) by (apply Funw; [left; reflexivity | exact Hw]).
+  cbn [map] in Hn. apply NoDup_cons_iff in Hn as [Hnj Hn].
+  assert (Hlab : forall i, In i (index_labels (ix ++ [(jseg j, uids_of (jevs j))])) <-> In i (index_labels ix) \/ i = jseg j).
+  { intros i. unfold index_labels. rewrite map_app, in_app_iff. cbn [map fst In]. intuition. }
+  split.
+  - unfold index_labels. rewrite map_app. cbn [map fst]. apply nodup_app. split; [exact Fnd|].
+    split; [repeat constructor; intros []|]. intros x Hx [<-|[]]. auto.
+  - intros i Hi. apply Hlab in Hi as [Hi| ->]; auto.
+  - intros j0 [<-|Hj0] H0; [discriminate|]. rewrite Hlab. intros [H| E].
+    + apply (Funw j0); [right|..]; assumption.
+    + apply Hnj. rewrite <- E. apply in_map, Hj0.
+  - intros j0 [<-|Hj0] H0; rewrite Hlab; [right; reflexivity | left; apply Fwr; [right|]; assumption].
+  - intros i Hi. apply Hlab in Hi as [Hi| ->]; [auto|].
+    destruct (jevs j) as [|e0 r] eqn:Hev; [contradiction|].
+    assert (Hu : In (euid e0) (uids_of (e0 :: r))) by (apply memb_true, uids_of_in; left; reflexivity).
+    apply Hall, dir_has_uid_spec in Hu as (e & He & _). eapply rows_of_has_dir, He.
+  - intros i us u Hix Hu. apply in_app_iff in Hix as [Hix|[E|[]]]; [eauto|]. inversion E; subst.
+    apply Hall, dir_has_uid_spec in Hu as (e & He & Eu). exists e. auto.
+  - intros i us e Hix He. apply in_app_iff in Hix as [Hix|[E|[]]]; [eauto|]. inversion E; subst.
+    apply memb_true, uids_of_in. apply (Fsub j); [left; reflexivity | exact Hw | exact He].
+  - intros i Hi. apply Hlab. left. auto.
+  - intros j0 [<-|Hj0] H0; [discriminate|]. apply Fsub; [right|]; assumption.
+Qed.
+
+Lemma fic_live lv lv' ds ix js al :
+  FIC lv ds ix js al -> (forall i, In i lv' -> In i lv \/ In i (index_labels ix)) -> FIC lv' ds ix js al.
+Proof. intros F H. dF F. split; auto. intros i Hi. apply H in Hi as [Hi|Hi]; auto. Qed.
+
+Lemma fic_done lv ds ix j rest al : FIC lv ds ix (j :: rest) al -> FIC lv ds ix rest al.
+Proof.
+  intros F. dF F. split; auto.
+  - intros j0 Hj0. apply Funw. right. exact Hj0.
+  - intros j0 Hj0. apply Fwr. right. exact Hj0.
+  - intros j0 Hj0. apply Fsub. right. exact Hj0.
+Qed.
+
+Lemma fi_rotate A s : Inv A s -> FI s -> FI (rotate s).
+Proof.
+  intros I F. unfold FI, rotate. cbn [live dirs index jobs alloc0].
+  apply fic_rotate; [exact F | exact (i_dlt _ _ _ _ _ _ _ I)].
+Qed.
+
+Lemma fi_store A s e : Inv A s -> FI s -> FI (store s e).
+Proof.
+  intros I F. unfold store. cbv zeta. destruct (cap s <=? len _); [|exact F].
+  unfold FI, rotate. cbn [live dirs index jobs alloc0 mem].
+  apply fic_rotate; [exact F | exact (i_dlt _ _ _ _ _ _ _ I)].
+Qed.
+
+Lemma fi_fw A s l : Inv A s -> FI s -> FI (fw_step s l).
+Proof.
+  intros I F. unfold fw_step. destruct (jobs s) as [|j rest] eqn:Hj; [exact F|].
+  assert (F' : FIC (live s) (dirs s) (index s) (j :: rest) (alloc0 s)) by (rewrite <- Hj; exact F).
+  assert (Hn : NoDup (map jseg (j :: rest))) by (rewrite <- Hj; exact (i_jnd _ _ _ _ _ _ _ I)).
+  assert (Hlt : jseg j < alloc0 s) by (apply (i_jlt _ _ _ _ _ _ _ I); rewrite Hj; left; reflexivity).
+  destruct l; destruct (jstage j) eqn:Hst; try exact F.
+  - (* FwBegin *) unfold FI; cbn [live dirs index jobs alloc0]. apply fic_adv; [exact F' | rewrite Hst; reflexivity].
+  - (* FwMkdir *) unfold FI; cbn [live dirs index jobs alloc0].
+    apply fic_add_rows; [exact F' | exact Hn | rewrite Hst; reflexivity | intros e []].
+  - (* FwWrite *)
+    destruct (negb (memb u (uids_of (jevs j))) || dir_has_uid s (jseg j) u); [exact F|].
+    unfold FI; cbn [live dirs index jobs alloc0].
+    apply fic_add_rows; [exact F' | exact Hn | rewrite Hst; reflexivity|].
+    intros e He. apply filter_In in He as [He _]. apply flush_order_in, He.
+  - (* FwIndex *)
+    destruct (is_empty (jevs j) || negb (forallb (dir_has_uid s (jseg j)) (uids_of (jevs j)))) eqn:Hc; [exact F|].
+    apply orb_false_iff in Hc as [He Hc]. apply negb_false_iff in Hc.
+    unfold FI; cbn [live dirs index jobs alloc0].
+    apply fic_index; [exact F' | exact Hn | exact Hlt | rewrite Hst; reflexivity | | exact Hc].
+    intros E. rewrite E in He. discriminate.
+  - (* FwPublish *)
+    assert (F2 : FIC (live s) (dirs s) (index s) (mkJob (jseg j) (jevs j) StPublished :: rest) (alloc0 s))
+      by (apply fic_adv; [exact F' | rewrite Hst; reflexivity]).
+    destruct (is_empty (jevs j)); [exact F2|].
+    unfold FI; cbn [live dirs index jobs alloc0]. eapply fic_live; [exact F2|].
+    intros i Hi. destruct (memb (jseg j) (live s)); [left; exact Hi|].
+    apply in_app_iff in Hi as [Hi|[<-|[]]]; [left; exact Hi|]. right.
+    apply (f_wr _ _ _ _ _ F' j); [left; reflexivity | rewrite Hst; reflexivity].
+  - (* FwClear *)
+    assert (F2 : FIC (live s) (dirs s) (index s) (mkJob (jseg j) (jevs j) StCleared :: rest) (alloc0 s))
+      by (apply fic_adv; [exact F' | rewrite Hst; reflexivity]).
+    destruct (is_empty (jevs j)); exact F2.
+  - (* FwWalDel *)
+    destruct (is_empty (jevs j) || negb (id <? N.succ (jseg j))); [exact F | exact F'].
+  - (* FwWalClean *)
+    assert (F2 : FIC (live s) (dirs s) (index s) (mkJob (jseg j) (jevs j) StWalCleaned :: rest) (alloc0 s))
+      by (apply fic_adv; [exact F' | rewrite Hst; reflexivity]).
+    destruct (is_empty (jevs j)); exact F2.
+  - (* FwDone, empty *)
+    destruct (is_empty (jevs j)); [|exact F].
+    unfold FI; cbn [live dirs index jobs alloc0]. eapply fic_done, F'.
+  - (* FwDone *)
+    unfold FI; cbn [live dirs index jobs alloc0]. eapply fic_done, F'.
+Qed.
+
+Lemma fi_run c ls :
+  no_crash ls -> NoDup (map ek (applied ls)) -> FI (run (init c) ls).
+Proof.
+  intros Hc Hk. pose proof (fun ls' => inv_run c ls') as IR. revert Hc Hk.
+  unfold no_crash. induction ls as [|l ls IH] using rev_ind; intros Hc Hk; [apply fi_init|].
+  rewrite forallb_app in Hc. apply andb_true_iff in Hc as [Hc Hl]. cbn [forallb] in Hl.
+  rewrite applied_app, map_app in Hk. apply nodup_app in Hk as (Hk1 & _ & _).
+  specialize (IH Hc Hk1). pose proof (inv_run c ls Hc Hk1) as I.
+  rewrite run_snoc. destruct l; cbn [is_crash negb andb] in Hl; try discriminate; cbn [step].
+  - eapply fi_store; eassumption.
+  - eapply fi_rotate; eassumption.
+  - unfold wal_write. destruct (walq _); exact IH.
+  - unfold wal_rotate. destruct (cap _ <=? wcnt _); exact IH.
+  - eapply fi_fw; eassumption.
+Qed.
+
+Theorem wf_reachable : forall c ls,
+  no_crash ls -> NoDup (map ek (applied ls)) ->
+  WF (run (init c) ls) /\ Exact (run (init c) ls).
+Proof.
+  intros c ls Hc Hk. pose proof (inv_run c ls Hc Hk) as I. pose proof (fi_run c ls Hc Hk) as F.
+  set (s := run (init c) ls) in *. unfold FI in F. dF F.
+  assert (X : Exact s).
+  { intros i e Hi He. apply Flive in Hi. unfold index_labels in Hi. apply in_map_iff in Hi as ([j us] & E & Hix).
+    cbn [fst] in E. subst j. exists us. split; [exact Hix | eapply Fexact; eauto]. }
+  split; [|exact X]. split; auto.
+  - intros i e Hi He. destruct (X i e Hi He) as (us & Hix & Hu). exists i, us. auto.
+  - pose proof (inv_rows _ _ I) as Hrows. intros a b Ha Hb.
+    apply (nodup_map_inj_on ek (applied ls) Hk); apply Hrows; assumption.
+Qed.
+
+(** the WAL holds applied events only *)
+Definition WalSub (A : list event) (s : shard) : Prop :=
+  (forall e, In e (walq s) -> In e A) /\ (forall e, In e (wal_rows s) -> In e A).
+
+Lemma wal_append_in f id e x :
+  In x (concat (map snd (wal_append f id e))) -> In x (concat (map snd f)) \/ x = e.
+Proof.
+  induction f as [|[i es] r IH]; cbn [wal_append].
+  - cbn [map concat snd app In]. intros [H|[]]. auto.
+  - destruct (i =? id); [|destruct (id <? i)]; cbn [map concat snd app In]; rewrite ?in_app_iff; cbn [In].
+    + intros [[H|[H|[]]]|H]; auto.
+    + intros [H|[H|H]]; auto.
+    + intros [H|H]; [tauto|]. apply IH in H. tauto.
+Qed.
+
+Lemma wal_touch_in f id x :
+  In x (concat (map snd (wal_touch f id))) -> In x (concat (map snd f)).
+Proof.
+  induction f as [|[i es] r IH]; cbn [wal_touch].
+  - cbn [map concat snd app]. auto.
+  - destruct (i =? id); [|destruct (id <? i)]; cbn [map concat snd app]; rewrite ?in_app_iff; auto.
+    intros [H|H]; [tauto|]. apply IH in H. tauto.
+Qed.
+
+Lemma fw_wal s l :
+  walq (fw_step s l) = walq s /\ forall e, In e (wal_rows (fw_step s l)) -> In e (wal_rows s).
+Proof.
+  unfold fw_step, wal_rows. destruct (jobs s) as [|j rest]; [auto|].
+  destruct l; destruct (jstage j); try (split; [reflexivity | auto]);
+    repeat match goal with |- context [if ?c then _ else _] => destruct c end;
+    unfold set_jobs, wal_cleanup; cbn [walq walfiles]; (split; [reflexivity|]); auto;
+    intros e; apply in_concat_filter.
+Qed.
+
+Lemma walsub_run c ls : no_crash ls -> WalSub (applied ls) (run (init c) ls).
+Proof.
+  unfold no_crash. induction ls as [|l ls IH] using rev_ind; intros Hc.
+  - split; cbn; intros e H; [destruct H | destruct H].
+  - rewrite forallb_app in Hc. apply andb_true_iff in Hc as [Hc Hl]. cbn [forallb] in Hl.
+    destruct (IH Hc) as [Hq Hf]. rewrite run_snoc, applied_app. set (s := run (init c) ls) in *.
+    destruct l; cbn [is_crash negb andb] in Hl; try discriminate; cbn [step applied]; rewrite ?app_nil_r.
+    + unfold store. cbv zeta. destruct (cap s <=? len _); unfold rotate, WalSub, wal_rows; cbn [walq walfiles];
+        (split; intros x Hx; apply in_app_iff; [apply in_app_iff in Hx as [Hx|Hx]; auto | left; apply Hf, Hx]).
+    + exact (conj Hq Hf).
+    + unfold wal_write. destruct (walq s) as [|e q] eqn:Hwq; [exact (IH Hc)|].
+      unfold WalSub, wal_rows. cbn [walq walfiles]. split; [intros x Hx; apply Hq; right; exact Hx|].
+      intros x Hx. destruct (wunlinked s); [apply Hf, Hx|]. apply wal_append_in in Hx as [Hx| ->]; [apply Hf, Hx|].
+      apply Hq. left. reflexivity.
+    + unfold wal_rotate. destruct (cap s <=? wcnt s); [|exact (conj Hq Hf)].
+      unfold WalSub, wal_rows. cbn [walq walfiles]. split; [exact Hq|]. intros x Hx. apply Hf, (wal_touch_in _ _ _ Hx).
+    + destruct (fw_wal s l) as [E1 E2]. split; [rewrite E1; exact Hq | intros x Hx; apply Hf, E2, Hx].
+Qed.
+
+Theorem keys_ok_disk_reachable : forall c ls,
+  no_crash ls -> NoDup (map ek (applied ls)) -> KeysOkDisk (run (init c) ls).
+Proof.
+  intros c ls Hc Hk. pose proof (inv_run c ls Hc Hk) as I. destruct (walsub_run c ls Hc) as [_ Hf].
+  assert (Hsub : forall e, In e (wal_rows (run (init c) ls) ++ all_rows (dirs (run (init c) ls))) -> In e (applied ls)).
+  { intros e He. apply in_app_iff in He as [He|He]; [apply Hf, He | apply (i_dir _ _ _ _ _ _ _ I), He]. }
+  intros a b Ha Hb. apply (nodup_map_inj_on ek (applied ls) Hk); apply Hsub; assumption.
+Qed.
